@@ -33,6 +33,12 @@ CLAIMED = {
             "Decides: the transition table admits exactly the protocol order; all state writes go through it; API calls check before "
             "acting and raise before any effect; commit after an abortable error re-raises, abort re-arms the waiter and reaches the "
             "coordinator; fatal errors kill the sender, fail all batches, and the context manager does not abort afterwards."),
+    "C03": ("CFG dominance / unreachable-from-branch rules, symbolic evaluation of check_assignment and of the fetch reply handling "
+            "against every FetchResponse_vN schema, who-writes table of the position, generator ordering rules",
+            "Decides: a fetch reply is accepted per partition only at the position it was requested for (all effects incl. error arms); "
+            "hand-out re-validates assignment/pause/position and moves the position with no suspension; position writers; skip-below, "
+            "advance-before-yield and progress in the unpack generator; seek drops buffered data; paused/filtered partitions; reply shape "
+            "of all 11 fetch versions. Equality with the broker's visible log for all log shapes is not decided."),
 }
 
 NA = {
